@@ -67,7 +67,7 @@ def run(res, tier):
         # 3. gate-scheduled interleavings (hooks): the close / next-datagram race, forced
         trg = os.path.join(tmp, "udp_gated.ndjson")
         sumg = os.path.join(tmp, "sumg.json")
-        rc, out, err = run_child(vdrive, ["udp-gated", "-out", trg, "-summary", sumg, "-reps", "30" if tier == "quick" else "300"])
+        rc, out, err = run_child(vdrive, ["udp-gated", "-out", trg, "-summary", sumg, "-reps", "30" if tier == "quick" else "300", "-closes", "30000" if tier == "quick" else "600000"])
         if rc != 0:
             if "panic:" in err:
                 crash_violation(res, out, err, "udp-gated")
@@ -78,6 +78,7 @@ def run(res, tier):
             raise Inconclusive(f"gate schedule infeasible in {sg['infeasible']} of {sg['runs']} runs (hooks compiled out or moved?)")
         ng, badg, _ = validate_traces(tmp, trg, "udp_traces.ndjson", "L4UdpTrace.tla", "L4UdpTrace.cfg")
         cov["traces_validated_against_impl"] += ng
+        cov["concurrent_close_stress"] = dict(associations=sg.get("multiclose_associations"), closers_each=8, note="brute force, no forced interleaving: a panic (double close) kills the child process and is reported as U0")
         cov["gate_scheduled"] = dict(schedule="handler returns -> Close closes done -> [gate] same client's next datagram reaches the loop -> release", runs=sg["runs"], infeasible=sg["infeasible"])
         cov["samples"] += sg["samples"][:1]
         bad += badg
